@@ -592,16 +592,18 @@ func (s *Search) quiescence(b *board.Board, alpha, beta Score, ply Depth, opts *
 		curr := -s.quiescence(b, -beta, -alpha, ply+1, opts)
 		b.UndoMove(m.Move, r)
 
+		// as in alphaBeta, abort has to be checked before the transposition table
+		// is updated: the score of an aborted child is meaningless
+		if s.abort(opts) {
+			return Inv
+		}
+
 		if curr >= beta {
 			transpT.Insert(b.Hash(), s.gen, 0, ply, m.Move, curr, transp.LowerBound)
 			return curr
 		}
 		maxim = max(maxim, curr)
 		alpha = max(alpha, curr)
-
-		if s.abort(opts) {
-			return Inv
-		}
 	}
 
 	transpT.Insert(b.Hash(), s.gen, 0, ply, 0, maxim, transp.UpperBound)
